@@ -21,6 +21,7 @@ import AutomataVerif.Proofs.Complete
 import AutomataVerif.Proofs.Partial
 import AutomataVerif.Proofs.MinCompose
 import AutomataVerif.Proofs.Expr
+import AutomataVerif.Proofs.MinGlue
 
 namespace AV.Props.C04
 open AV AV.DFA
@@ -306,7 +307,7 @@ theorem C04_to_partial_trim (d : AV.DFA σ α) (hd : d.validate = .ok ()) :
   intro q hq
   rcases mem_partialStates.mp hq with h | ⟨h1, h2⟩
   · exact Or.inl h
-  · exact Or.inr ⟨(mem_accessible_iff wf).mp h1, (mem_coaccessible_iff wf).mp h2⟩
+  · exact Or.inr ⟨(C04.mem_accessible_iff wf).mp h1, (C04.mem_coaccessible_iff wf).mp h2⟩
 
 /-- A complete DFA with a trap state `2` and an unreachable state `3`. -/
 def exC : AV.DFA Nat Nat :=
@@ -328,7 +329,8 @@ table and a set of final states.  Proved here, unconditionally: the call is admi
 inside the refinement system) and the language of the refinement system is the intended one.
 What `_minify` returns for an admissible call (`MinifyCoreOk`: valid, duplicate-free,
 accepts the language of the refinement system) is C05's theorem (Proofs/MinQuotient.lean +
-Proofs/Hopcroft.lean); the corollaries below take it as an explicit hypothesis `hmin`. -/
+Proofs/Hopcroft.lean); the corollaries of this section take it as an explicit hypothesis `hmin`,
+and section 8 discharges it (Proofs/MinGlue.lean). -/
 
 /-- `A.op(B, minify=True)`: the call of `_minify` is admissible and its refinement system
 accepts exactly the set operation of the operands' verdicts. -/
@@ -352,7 +354,8 @@ theorem C04_binop_min_call (op : BinOp) (A B : AV.DFA σ α) (hA : A.validate = 
     cases hP; rfl
   exact minifyCall_of_valid wf hp (by rw [hPe]; exact expand_reach _ _ hyp)
 
-/-- The full statement for `minify=True` Boolean operations (proved below modulo C05). -/
+/-- The full statement for `minify=True` Boolean operations (proved: `C04_binop_min_full_holds`,
+section 8). -/
 def C04_binop_min_full : Prop :=
   ∀ (σ α : Type) [DecidableEq σ] [DecidableEq α] (op : BinOp) (A B : AV.DFA σ α)
     (pick : List Nat → Nat), A.validate = .ok () → B.validate = .ok () → A.PyShape →
@@ -372,7 +375,7 @@ theorem C04_binop_min_partial (op : BinOp) (A B : AV.DFA σ α) (pick : List Nat
   obtain ⟨P, hP, hsy, _, hl⟩ := C04_binop_min_call op A B hA hB pA hs
   have ok := hmin P hP
   refine ⟨minifyCore P.states P.syms P.trans P.init P.finals pick, ?_, ok.valid, ok.pyShape,
-    (minifyCore_syms _ _ _ _ _ _).trans hsy, fun w => (ok.accepts w).trans (hl w)⟩
+    (C04.minifyCore_syms _ _ _ _ _ _).trans hsy, fun w => (ok.accepts w).trans (hl w)⟩
   unfold binopMin; rw [hP]
 
 /-- `C04_binop_min_full` follows from C05's guarantee for all admissible calls. -/
@@ -398,7 +401,8 @@ theorem C04_complement_min_call (c : AV.DFA σ α) (hv : c.validate = .ok ()) (p
   have wf := (DFA.validate_eq_ok c).mp hv
   exact ⟨complementMin_call wf pc, complementMin_sys wf pc hc⟩
 
-/-- The full statement for `complement(minify=True)` (proved below modulo C05). -/
+/-- The full statement for `complement(minify=True)` (proved: `C04_complement_min_full_holds`,
+section 8). -/
 def C04_complement_min_full : Prop :=
   ∀ (σ α : Type) [DecidableEq σ] [DecidableEq α] (d : AV.DFA σ α) (trap : σ)
     (pick : List Nat → Nat), d.validate = .ok () → d.PyShape → trap ∉ d.states →
@@ -429,9 +433,9 @@ theorem C04_complement_min_partial (d : AV.DFA σ α) (trap : σ) (pick : List N
   have ok := hmin C hC
   obtain ⟨_, hl⟩ := C04_complement_min_call C hv hp hc
   refine ⟨C.complementMin pick, ?_, ok.valid, ok.pyShape,
-    (minifyCore_syms _ _ _ _ _ _).trans hs, fun w => ?_⟩
+    (C04.minifyCore_syms _ _ _ _ _ _).trans hs, fun w => ?_⟩
   · unfold complementMinFull; rw [hC]
-  · rw [complementMin_eq, ok.accepts w, hl w, hs, hacc w]
+  · rw [C04.complementMin_eq, ok.accepts w, hl w, hs, hacc w]
 
 /-- `to_partial(minify=True)`: the call of `_minify` (kept = live ∩ non-trap ∪ {initial}) is
 admissible and its refinement system accepts the language of `d`. -/
@@ -443,7 +447,8 @@ theorem C04_to_partial_min_call (d : AV.DFA σ α) (hd : d.validate = .ok ()) (p
   have wf := (DFA.validate_eq_ok d).mp hd
   exact ⟨toPartialMin_call wf pd, toPartialMin_sys wf⟩
 
-/-- The full statement for `to_partial(minify=True)` (proved below modulo C05). -/
+/-- The full statement for `to_partial(minify=True)` (proved: `C04_to_partial_min_full_holds`,
+section 8). -/
 def C04_to_partial_min_full : Prop :=
   ∀ (σ α : Type) [DecidableEq σ] [DecidableEq α] (d : AV.DFA σ α) (pick : List Nat → Nat),
     d.validate = .ok () → d.PyShape →
@@ -458,8 +463,8 @@ theorem C04_to_partial_min_partial (d : AV.DFA σ α) (pick : List Nat → Nat)
     (d.toPartialMin pick).validate = .ok () ∧ (d.toPartialMin pick).PyShape ∧
       (d.toPartialMin pick).syms = d.syms ∧ ∀ w, (d.toPartialMin pick).accepts w = d.accepts w := by
   obtain ⟨_, hl⟩ := C04_to_partial_min_call d hd pd
-  rw [toPartialMin_eq]
-  exact ⟨hmin.valid, hmin.pyShape, minifyCore_syms _ _ _ _ _ _, fun w => (hmin.accepts w).trans (hl w)⟩
+  rw [C04.toPartialMin_eq]
+  exact ⟨hmin.valid, hmin.pyShape, C04.minifyCore_syms _ _ _ _ _ _, fun w => (hmin.accepts w).trans (hl w)⟩
 
 /-- All three `minify=True` statements follow from C05's guarantee for admissible calls. -/
 theorem C04_min_of_C05
@@ -616,7 +621,8 @@ theorem C04_expr_gen (trapOf : List Nat → Nat) (hfresh : ∀ l, trapOf l ∉ l
     obtain ⟨C, hC, sC, _⟩ := C04_closed_to_complete sA (trapOf A.states) false (hfresh _)
     exact ⟨C, by simp only [DFAExpr.eval, hA, hC], sC⟩
 
-/-- The full statement for expression trees: all trees, all `minify` flags. -/
+/-- The full statement for expression trees: all trees, all `minify` flags (proved:
+`C04_expr_full_holds`, section 8). -/
 def C04_expr_full : Prop :=
   ∀ (α : Type) [DecidableEq α] (trapOf : List Nat → Nat), (∀ l, trapOf l ∉ l) →
     ∀ (pick : List Nat → Nat) (Sg : List α) (e : DFAExpr α), e.LeavesOk Sg →
@@ -669,5 +675,108 @@ example : (exE.denote [0, 1] [1], exE.denote [0, 1] [0, 0], exE.denote [0, 1] [1
 example : (match exE.eval freshNat (fun _ => 0) with
            | .ok R => R.validate
            | .error e => .error e) = .ok () := by rfl
+
+end AV.Props.C04
+
+/-! # 8. `minify=True`, unconditionally
+
+Section 7 proved the caller side of every `minify=True` path and stated the callee side
+(`MinifyCoreOk` for the call made / `MinifyGuarantee` for all admissible calls) as a
+hypothesis.  That hypothesis is C05's result; it is discharged in Proofs/MinGlue.lean
+(`minifyGuarantee`: `hopcroft_nerode` + `minifyCore_accepts` + `quotOf_wf` + `quotOf_pyShape`).
+The theorems below are the `_partial` theorems of sections 6–7 without the hypothesis, and
+the `_full` statements are proved. -/
+
+namespace AV.Props.C04
+open AV AV.DFA AV.C04
+
+variable {σ α : Type} [DecidableEq σ] [DecidableEq α]
+
+/-- Every admissible call of `_minify` returns a valid, duplicate-free DFA accepting the
+language of the refinement system (C05, for every pop order). -/
+theorem C04_minifyGuarantee : MinifyGuarantee := minifyGuarantee
+
+/-- **Boolean operations, `retain_names=True, minify=True`.**  For valid operands over a
+common alphabet (every mix of partial and complete), every pop order `pick` of the
+refinement loop: the call succeeds and the result is a valid duplicate-free DFA over the
+operands' alphabet that accepts exactly the words on which the set operation of the two
+verdicts holds. -/
+theorem C04_binop_min (op : BinOp) (A B : AV.DFA σ α) (pick : List Nat → Nat)
+    (hA : A.validate = .ok ()) (hB : B.validate = .ok ()) (pA : A.PyShape) (hs : A.symsEq B = true) :
+    ∃ M, A.binopMin op B pick = .ok M ∧ M.validate = .ok () ∧ M.PyShape ∧ M.syms = A.syms ∧
+      ∀ w, M.accepts w = op.fin (A.accepts w) (B.accepts w) :=
+  (C04_min_of_C05 minifyGuarantee).1 σ α op A B pick hA hB pA hs
+
+/-- **Complement, `minify=True`**, of any valid DFA (partial or complete; the operand is
+completed first iff `allow_partial`), any trap name outside the states, every pop order: the
+call succeeds with a valid duplicate-free DFA over the same alphabet that accepts exactly the
+words over the alphabet that the operand rejects. -/
+theorem C04_complement_min (d : AV.DFA σ α) (trap : σ) (pick : List Nat → Nat)
+    (hd : d.validate = .ok ()) (pd : d.PyShape) (ht : trap ∉ d.states) :
+    ∃ M, d.complementMinFull trap pick = .ok M ∧ M.validate = .ok () ∧ M.PyShape ∧
+      M.syms = d.syms ∧
+      ∀ w, M.accepts w = ((w.all fun a => decide (a ∈ d.syms)) && !d.accepts w) :=
+  (C04_min_of_C05 minifyGuarantee).2.1 σ α d trap pick hd pd ht
+
+/-- **`to_partial(minify=True)`** of any valid DFA, every pop order: a valid duplicate-free
+DFA over the same alphabet with the same verdict on every word. -/
+theorem C04_to_partial_min (d : AV.DFA σ α) (pick : List Nat → Nat)
+    (hd : d.validate = .ok ()) (pd : d.PyShape) :
+    (d.toPartialMin pick).validate = .ok () ∧ (d.toPartialMin pick).PyShape ∧
+      (d.toPartialMin pick).syms = d.syms ∧ ∀ w, (d.toPartialMin pick).accepts w = d.accepts w :=
+  (C04_min_of_C05 minifyGuarantee).2.2 σ α d pick hd pd
+
+theorem C04_binop_min_full_holds : C04_binop_min_full := (C04_min_of_C05 minifyGuarantee).1
+theorem C04_complement_min_full_holds : C04_complement_min_full :=
+  (C04_min_of_C05 minifyGuarantee).2.1
+theorem C04_to_partial_min_full_holds : C04_to_partial_min_full :=
+  (C04_min_of_C05 minifyGuarantee).2.2
+
+/-- **Closure of the `minify=True` operations**: operands that are valid DFAs over `Sg` with
+languages `LA`, `LB` give valid DFAs over `Sg` with the set-operation language / the
+complement relative to `Sg*` / the same language — so `minify=True` results can be operands
+of further operations. -/
+theorem C04_closed_min {A B : AV.DFA σ α} {Sg : List α} {LA LB : List α → Bool}
+    (hA : Sem A Sg LA) (hB : Sem B Sg LB) (pick : List Nat → Nat) :
+    (∀ op, ∃ M, A.binopMin op B pick = .ok M ∧ Sem M Sg (fun w => op.fin (LA w) (LB w))) ∧
+    (∀ trap, trap ∉ A.states → ∃ M, A.complementMinFull trap pick = .ok M ∧
+      Sem M Sg (fun w => (w.all fun a => decide (a ∈ Sg)) && !LA w)) ∧
+    Sem (A.toPartialMin pick) Sg LA :=
+  C04_closed_min_partial minifyGuarantee hA hB pick
+
+/-- **Expression trees, any `minify` flags.**  For every finite tree over {leaf, ∪, ∩, −, △,
+complement, to_partial, to_complete} whose operation nodes carry an arbitrary `minify` flag
+and whose leaves are valid duplicate-free DFAs over one alphabet `Sg`, evaluation with the
+model of the code (`retain_names=False`; `trapOf` returns a name outside the given states,
+`pick` is any pop order of the refinement loop) succeeds, and the result is a valid DFA over
+`Sg` whose verdict on every word is the denoted set expression (complement relative to
+`Sg*`). -/
+theorem C04_expr_all (trapOf : List Nat → Nat) (hfresh : ∀ l, trapOf l ∉ l) (pick : List Nat → Nat)
+    (Sg : List α) (e : DFAExpr α) (hl : e.LeavesOk Sg) :
+    ∃ R, e.eval trapOf pick = .ok R ∧ Sem R Sg (e.denote Sg) :=
+  C04_expr_gen trapOf hfresh pick Sg e hl (fun _ => minifyGuarantee)
+
+theorem C04_expr_full_holds : C04_expr_full := C04_expr_min_partial minifyGuarantee
+
+/-! ### non-vacuity: the hypotheses are met by `exA`, `exB`, `exC`, `exEm` above -/
+
+example : ∃ M, exA.binopMin .symm exB (fun _ => 0) = .ok M ∧ M.validate = .ok () ∧ M.PyShape ∧
+    M.syms = exA.syms ∧ ∀ w, M.accepts w = BinOp.symm.fin (exA.accepts w) (exB.accepts w) :=
+  C04_binop_min .symm exA exB _ (by rfl) (by rfl)
+    ⟨by decide, by decide, by decide, by decide, by decide⟩ (by decide)
+example : (2 : Nat) ∉ exA.states := by decide
+example : ∃ M, exA.complementMinFull 2 (fun _ => 0) = .ok M ∧ M.validate = .ok () ∧ M.PyShape ∧
+    M.syms = exA.syms ∧
+    ∀ w, M.accepts w = ((w.all fun a => decide (a ∈ exA.syms)) && !exA.accepts w) :=
+  C04_complement_min exA 2 _ (by rfl) ⟨by decide, by decide, by decide, by decide, by decide⟩
+    (by decide)
+example : ∀ w, (exC.toPartialMin).accepts w = exC.accepts w :=
+  (C04_to_partial_min exC _ (by rfl) ⟨by decide, by decide, by decide, by decide, by decide⟩).2.2.2
+example : exEm.LeavesOk [0, 1] := ⟨⟨exA_leafOk, exB_leafOk⟩, ⟨exA_leafOk, exB_leafOk⟩⟩
+example : ∃ R, exEm.eval freshNat (fun _ => 0) = .ok R ∧ Sem R [0, 1] (exEm.denote [0, 1]) :=
+  C04_expr_all freshNat freshNat_not_mem _ [0, 1] exEm
+    ⟨⟨exA_leafOk, exB_leafOk⟩, ⟨exA_leafOk, exB_leafOk⟩⟩
+example : (exEm.denote [0, 1] [1], exEm.denote [0, 1] [0, 0], exEm.denote [0, 1] [1, 0, 1],
+    exEm.denote [0, 1] [1, 7]) = (false, true, true, false) := by decide
 
 end AV.Props.C04
